@@ -75,11 +75,21 @@ func c08prop(r *simkit.Run) {
 	if rapid.Bool().Draw(rt, "h-te") {
 		add("TE", "gzip")
 	}
+	upgradeTo := ""
 	if rapid.Bool().Draw(rt, "h-upgrade") {
-		add("Upgrade", "h2c")
+		upgradeTo = rapid.SampledFrom([]string{"h2c", "websocket", "WebSocket"}).Draw(rt, "upgrade-to")
+		add("Upgrade", upgradeTo)
 	}
+	upgradeAsked := false // a protocol-upgrade handshake: Upgrade plus the "upgrade" token in Connection
 	if rapid.Bool().Draw(rt, "h-connection") {
 		toks := []string{}
+		if upgradeTo != "" && rapid.Bool().Draw(rt, "c-upgrade") {
+			// The handshake of a protocol upgrade (which the backend here declines by answering in plain HTTP). Go's
+			// reverse proxy hands these two fields on by design - they are how the next hop learns of the offer; every
+			// other clause holds for such a request as for any other: it still arrived over http or https.
+			toks = append(toks, rapid.SampledFrom([]string{"Upgrade", "upgrade"}).Draw(rt, "c-upgrade-spelling"))
+			upgradeAsked = true
+		}
 		if rapid.Bool().Draw(rt, "c-keepalive") {
 			toks = append(toks, "keep-alive")
 		}
@@ -175,6 +185,9 @@ func c08prop(r *simkit.Run) {
 		want[http.CanonicalHeaderKey(h.name)] = append(want[http.CanonicalHeaderKey(h.name)], h.value)
 	}
 	for _, f := range fields {
+		if upgradeAsked && (f[0] == "Connection" && strings.EqualFold(f[1], "upgrade") || f[0] == "Upgrade" && f[1] == upgradeTo) {
+			continue
+		}
 		if hopByHop[f[0]] && !(f[0] == "Transfer-Encoding" || f[0] == "Connection" && strings.EqualFold(f[1], "close")) {
 			r.Fail("hop-by-hop-forwarded", "backend received hop-by-hop header %s: %s %s", f[0], f[1], ctxt)
 		}
